@@ -262,10 +262,13 @@ def _convert_timestamp_to_tz_unaware(val):
         arr = val
     else:
         arrow = to_arrow(val)
+        # timestamps holding nulls (NaT) cannot be viewed without a copy
         if hasattr(arrow, "chunks"):
-            arr = pa.chunked_array([c.to_numpy() for c in arrow.chunks])
+            arr = pa.chunked_array(
+                [c.to_numpy(zero_copy_only=False) for c in arrow.chunks]
+            )
         else:
-            arr = arrow.to_numpy()
+            arr = arrow.to_numpy(zero_copy_only=False)
 
     return arr, orig_type
 
@@ -1043,7 +1046,15 @@ def _val_to_numpy(
         is_chunked = False
 
     if is_chunked:
-        val_list = [chunk.to_numpy() for chunk in arrow.chunks]
+        # strings and chunks holding nulls cannot be viewed without a copy
+        val_list = [chunk.to_numpy(zero_copy_only=False) for chunk in arrow.chunks]
+        dtypes = {v.dtype for v in val_list}
+        if len(dtypes) > 1 and all(d.kind in "iufb" for d in dtypes):
+            # integer chunks with nulls come back as float64: give all chunks one dtype
+            common = np.result_type(*dtypes)
+            val_list = [v.astype(common, copy=False) for v in val_list]
+    elif isinstance(val, pa.Array):
+        val_list = [val.to_numpy(zero_copy_only=False)]
     elif hasattr(val, "to_numpy"):
         val_list = [val.to_numpy()]  # type: ignore
     else:
